@@ -299,6 +299,9 @@ SIZING = [
     ('LazyStruct("a"/Bytes(this._.n), "s"/LazyStruct("b"/Bytes(this._._.n)))', dict(n=2), 4),
     ('Struct("a"/Array(this._.n, Struct("b"/Bytes(this._._.n))))', dict(n=2), 4),
     ('Struct("a"/Bytes(this._.missing))', dict(n=2), 'SizeofError'),
+    ('Struct("keys"/Byte, "data"/Bytes(this.keys))', {}, 'SizeofError'),
+    ('Struct("d"/Bytes(this._.items), "e"/Bytes(this._params.values))', dict(items=2, values=3), 5),
+    ('Struct("d"/Bytes(this._.items))', {}, 'SizeofError'),
 ]
 
 COHERENT = [
@@ -318,6 +321,24 @@ COHERENT = [
     ('Struct("f"/Flag, "a"/Lazy(Struct("g"/If(this._parsing | this._building, Byte), "h"/If(this._._parsing | this._._building, Byte))), "b"/Byte)', dict(f=True, a=dict(g=4, h=5), b=9), {}),
     ('Struct("a"/LazyStruct("g"/Struct("q"/If(this._parsing | this._building, Byte)), "h"/Byte), "b"/Byte)', dict(a=dict(g=dict(q=1), h=2), b=3), {}),
     ('Struct("a"/LazyArray(2, Struct("q"/If(this._parsing | this._building, Byte))), "b"/Byte)', dict(a=[dict(q=1), dict(q=2)], b=3), {}),
+    # members named like the attributes of the objects that hold them (values are given as plain dicts when building, Containers when parsing)
+    ('Struct("keys"/Byte, "items"/Bytes(this.keys), "values"/Struct("get"/Byte, "pop"/Bytes(this.get + this._.keys)))', dict(keys=2, items=b'ab', values=dict(get=1, pop=b'xyz')), {}),
+    ('Struct("n"/Rebuild(Byte, len_(this.payload.items)), "payload"/Struct("items"/Bytes(this._.n)))', dict(payload=dict(items=b'abc')), {}),
+    ('Struct("copy"/Byte, "update"/Array(this.copy, Byte), "clear"/If(this.copy == 2, Byte), "search"/Bytes(this.update[0]))', dict(copy=2, update=[1, 2], clear=5, search=b'z'), {}),
+    ('Struct("hdr"/LazyStruct("values"/Byte, "x"/Byte), "d"/Bytes(this.hdr.values))', dict(hdr=dict(values=2, x=1), d=b'ab'), {}),
+    ('Struct("s"/Struct("setdefault"/Byte), "t"/Struct("d"/Bytes(this._.s.setdefault), "e"/Bytes(this._root.s.setdefault)))', dict(s=dict(setdefault=1), t=dict(d=b'a', e=b'b')), {}),
+    ('Sequence("items"/Byte, "d"/Bytes(this.items), Struct("e"/Bytes(this._.items)))', [1, b'a', dict(e=b'b')], {}),
+]
+
+# oracle only: the model scopes _index to the repeater (it is None again after the loop), the library leaves the last index in the context
+AFTER_LOOP = [
+    # the repetition index a repeater leaves behind is the same after parsing and after building
+    ('Struct("items"/RepeatUntil(obj_ == 0, Byte), "tail"/Bytes(this._index + 1))', dict(items=[5, 6, 0], tail=b'abc'), {}),
+    ('Struct("a"/Array(2, Byte), "tail"/Bytes(this._index + 1))', dict(a=[1, 2], tail=b'xy'), {}),
+    ('Array(2, Struct("items"/RepeatUntil(obj_ == 0, Byte), "tail"/Bytes(this._index + 1)))', [dict(items=[0], tail=b'a'), dict(items=[1, 0], tail=b'ab')], {}),
+    ('Struct("r"/RepeatUntil(obj_ == 0, Byte), "i"/Index, "s"/Struct("j"/Index, "b"/Bytes(this._index)))', dict(r=[9, 9, 9, 0], s=dict(b=b'xyz')), {}),
+    ('Sequence(RepeatUntil(obj_ == 0, Byte), Bytes(this._index), Index)', [[7, 0], b'q', 1], {}),
+    ('FocusedSeq("t", "r"/Rebuild(RepeatUntil(obj_ == 0, Byte), [5, 0]), "t"/Bytes(this._index + 1))', b'ab', {}),
 ]
 
 
@@ -356,7 +377,11 @@ def run(tier, seed):
             ('Struct("s"/Struct("q"/Struct("d"/Bytes(this._root._.k))), "t"/Byte)', dict(s=dict(q=dict(d=b'xy')), t=7), dict(k=2)),
             ('Sequence(Bytes(this._.n), IfThenElse(this._params.big, Int32ub, Byte))', [b'ab', 70000], dict(n=2, big=True)),
             ('Struct("x"/Switch(this._params.kind, {"a": Byte, "b": Int16ub}), "p"/Padded(this._.w, Byte))', dict(x=300, p=1), dict(kind='b', w=3))]:
+        if any(n in src for n in ('"keys"', '"items"', '"values"', '"copy"', '"setdefault"')):
+            continue          # the comparison helper reads containers through .items(), which such a member shadows
         acc.check('entry_points', src, obj=obj, kw=kw)
+    for src, obj, kw in AFTER_LOOP:
+        acc.check('coherent', src, obj=obj, kw=kw)
     for src, csrc, data in UNION_SELFREF:
         acc.check('union_selfref', src, const_src=csrc, data=data)
         if 'lambda' not in src:
